@@ -293,7 +293,8 @@ func c03specials(tier string) [][]byte {
 		}
 		return b
 	}
-	out := [][]byte{{}, []byte("x"), []byte("\r"), []byte("\n"), []byte("\r\n"), {0}, []byte("$-1\r\n"), []byte("*1\r\n$1\r\nx\r\n"), []byte("a b")}
+	out := [][]byte{{}, []byte("x"), []byte("\r"), []byte("\n"), []byte("\r\n"), {0}, []byte("$-1\r\n"), []byte("*1\r\n$1\r\nx\r\n"), []byte("a b"),
+		[]byte("a}{tag}b"), []byte("{}{tag}"), []byte("{tag"), []byte("x{tag}y{other}"), []byte("}{user1000}.following"), []byte("{{tag}}")}
 	for _, n := range []int{511, 512, 513, 4095, 4096, 4097, 8191, 8192, 8193} {
 		out = append(out, mk(n))
 	}
